@@ -641,11 +641,22 @@ fn stale_sender_crossing(sim: &mut Sim, rep: &mut Report, c01: usize, amt1: u64,
 		turn(sim, true);
 		tally(sim, &mut sent1, &mut failed1);
 		sim.dispatch(rep);
+		if failed1 > 0 {
+			break;
+		}
 		if !sim.raised.is_empty() {
 			return Ok(());
 		}
 	}
 	rep.count("c03_p4_crossing_scenarios_judged");
+	if failed1 > 0 {
+		// The payment monitor files "PaymentFailed after a handled PaymentSent, sender restarted from an older manager"
+		// under the known finding F8 (the monitor no longer has the long-removed HTLC). Here the monitor, by
+		// construction, still had the HTLC in the counterparty's current commitment and had durably been told of the
+		// claim: this is not that finding, and is reported under its own signature below.
+		let d = format!("node0 payment#{}", p1);
+		sim.raised.retain(|r| !(r.0 == "C03" && r.1 == "P4-one-terminal-event" && r.3 == d));
+	}
 	if sent1 > 0 {
 		rep.count("c03_p4_payment_sent_replayed_after_the_stale_restart");
 	}
